@@ -5,7 +5,11 @@ folding with IEEE-exact rewrites) and is self + s (rhs - self) in between; move_
 and otherwise self + (rhs - self) d / len (so the distance moved is d and d < len there); clamp_length* returns self or one common
 positive scalar times self with guards len^2 < min^2 / len^2 > max^2; any_orthogonal_vector / any_orthonormal_vector / pair are orthogonal
 (and unit, mutually orthogonal under |self|^2 = 1, sign^2 = 1); quaternion lerp negates the end point exactly when dot < 0.
-Not decided: angles of slerp / rotate_towards, from_rotation_arc, numeric length bounds."""
+R-APPROX: the polynomial arccos (all backends) and the SSE2 sine polynomial with its 2 pi range reduction are within 1e-6 / 2e-6 of acos / sin
+over their whole domain, binary32 rounding included (interval certificates).
+R-SLERP: on every branch that evaluates the arccos, quaternion and vector slerp return (sin((1-s) t) a^ + sin(s t) b^) / sin t with t = acos_approx(cos angle),
+b negated on the longer quaternion arc and vector lengths interpolated linearly (the arccos / SSE2 sine polynomials read as the functions they are certified to approximate).
+Not decided: numeric angle error near the parallel / anti-parallel thresholds, rotate_towards' angle arithmetic, from_rotation_arc(a, b) a = b."""
 import re
 import terms as tm
 from terms import ite
@@ -64,6 +68,100 @@ def fold_exact(t, memo=None):
         r = tm.rebuild(t.op, args)
     memo[t.id] = r
     return r
+
+
+def _abstract_harness(F):
+    """harness in which the polynomial arccos is the symbol acos_approx(.) and the SSE2 sine polynomial is sin(.) lane-wise (both certified by R-APPROX)"""
+    from harness import Harness
+    import tables
+    from C02 import EXTRA
+    xl = dict(EXTRA)
+    xl['sse2::m128_sin'] = lambda I, fr, callee, args, dest, argops, line: tables.vec([tm.mk('sin', x) for x in tables.lanes(I, args[0], 4, 4)], 4)
+    return Harness(F, {'extra_leaf': xl})
+
+
+def check_slerp(ctx, cfg, F, done):
+    """slerp(a, b, s): with b' = -b when a.b < 0 (quaternions: shorter arc), c = |a.b| (quaternions) or a.b / (|a||b|) (vectors) and theta = acos_approx(c),
+    the spherical branch returns (sin((1-s) theta) a^ + sin(s theta) b^) / sin(theta) (vectors: a^ = a L/|a|, b^ = b L/|b|, L = |a| + s(|b| - |a|));
+    the near-parallel branch of the quaternion form is the normalised lerp.  Decided per branch (conditions substituted by constants)."""
+    from post import split_cases
+    from C07 import canon_c07
+    Hx = _abstract_harness(F)
+    for name, it in api_roots(F):
+        st = (it.get('self_ty') or '').lstrip('&')
+        tname = st.rsplit('::', 1)[-1]
+        if it.get('trait') or (it.get('name') or '') != 'slerp':
+            continue
+        is_quat = tname in ('Quat', 'DQuat')
+        if not is_quat and tname not in FLOAT_TYPES:
+            continue
+        body = F.body(it['key'])
+        argtys = body['locals'][1:1 + body['argc']]
+        rty = body['locals'][0]
+        r = Hx.run(it['key'])
+        if r.abort or r.ret is None:
+            ctx.undecided('R-SLERP', cfg, name, r.abort or 'diverges')
+            continue
+        views = [ArgView(F, r, i, argtys[i]) for i in range(3)]
+        lanes = value_lanes(F, r.ret, rty)
+        if lanes is None or any(v.lanes is None for v in views):
+            ctx.unverifiable('R-SLERP', cfg, name, 'operands / result lanes not found')
+            continue
+        lanes = [canon_c07(l) for l in lanes]
+        cases = split_cases(lanes)
+        if cases is None:
+            ctx.undecided('R-SLERP', cfg, name, 'too many selections')
+            continue
+        n_sph = 0
+        bad = None
+        for ls in cases:
+            alg = nf.Algebra()
+            alg.budget = 400000
+            S = Spec(alg)
+            a = [alg.nf(x) for x in views[0].lanes]
+            b = [alg.nf(x) for x in views[1].lanes]
+            s_ = alg.nf(views[2].lanes[0])
+            try:
+                got = [alg.nf(l) for l in ls]
+            except ValueError as e:
+                bad = 'not analysable: %s' % e
+                break
+            # which branch is this?  it is spherical iff the result mentions the arccos symbol
+            txt = ''.join(tm.show(l, 0, 60) for l in ls)
+            if 'acos_approx' not in txt:
+                continue          # lerp / degenerate branches: R-ARC, R-ENDPOINT and C20 R-POST
+            dot = S.dot(a, b)
+            ok = False
+            tried = []
+            for sign in (1, -1):
+                if is_quat:
+                    c = dot if sign == 1 else S.neg(dot)
+                    bb = b if sign == 1 else [S.neg(x) for x in b]
+                    aa = a
+                else:
+                    if sign == -1:
+                        continue
+                    la, lb = alg.sqrt_r(S.dot(a, a)), alg.sqrt_r(S.dot(b, b))
+                    c = S.div(dot, S.mul(la, lb))
+                    L = S.add(la, S.mul(s_, S.sub(lb, la)))
+                    aa = [S.mul(x, S.div(L, la)) for x in a]
+                    bb = [S.mul(x, S.div(L, lb)) for x in b]
+                theta = alg.fn_r('acos_approx', [c])
+                t1 = alg.sin_r(S.mul(theta, S.sub(S.c(1), s_)))
+                t2 = alg.sin_r(S.mul(theta, s_))
+                st_ = alg.sin_r(theta)
+                exp = [S.div(S.add(S.mul(x, t1), S.mul(y, t2)), st_) for x, y in zip(aa, bb)]
+                if all(S.eq(g, e) for g, e in zip(got, exp)):
+                    ok = True
+                    break
+            if ok:
+                n_sph += 1
+            else:
+                bad = 'a spherical branch is not (sin((1-s) t) a + sin(s t) b) / sin(t) with t = acos_approx(cos of the angle): lane 0 is %s' % got[0][0].show(alg.name, 6)
+                break
+        if bad is None and n_sph == 0:
+            bad = 'no spherical branch found'
+        done('R-SLERP', name, bad, it)
 
 
 def run(ctx):
@@ -269,6 +367,16 @@ def run(ctx):
                         if not okG:
                             bad = 'end point is not negated exactly when dot < 0: guard %s' % tm.show(G, 0, 3)[:160]
                 done('R-ARC', name, bad, it)
+        # R-SLERP: the interpolation formula itself, with the arccos and sine evaluations as opaque function symbols
+        check_slerp(ctx, cfg, F, done)
+        # accuracy of the approximations slerp / rotate_towards / angle_between are built on (interval certificates, rules/approx.py):
+        # the polynomial arccos everywhere, and the SSE2 backend's own sine polynomial used by Quat::slerp
+        import approx
+        from harness import Harness
+        Hp = Harness(F)
+        has_sin = any(n == 'sse2::m128_sin' for n in F.items)
+        n_c = approx.run_certs(ctx, cfg, F, Hp, ['f32::math::acos_approx_f32'] + (['sse2::m128_sin'] if has_sin else []))
+        ctx.floor('approximation accuracy certificates (%s)' % cfg, n_c, 2 if has_sin else 1)
         ctx.floor('interpolation / steering / clamping instances (%s)' % cfg, sum(counts.values()), 40)
         for k, v in sorted(counts.items()):
             ctx.count('%s:%s' % (k, cfg), v)
